@@ -800,6 +800,9 @@ func (env *Env) evalCall(e *Expr) CV {
 		return CV{V: Scalar{arg(0).V.(SliceV).Base}, T: types.Typ[types.Uint64]}
 	case "off":
 		return CV{V: Scalar{arg(0).V.(SliceV).Off}, T: it}
+	case "strkey":
+		// strkey(s): the identity under which the string s is a map key (a function of its content)
+		return CV{V: Scalar{r.mapKeyOf(env.cur, arg(0).V, types.Typ[types.String])}, T: types.Typ[types.Uint64]}
 	case "mem8", "mem16", "mem32", "mem64":
 		n := map[string]int{"mem8": 1, "mem16": 2, "mem32": 4, "mem64": 8}[name]
 		a := r.scalar(arg(0).V)
@@ -1208,6 +1211,14 @@ func (env *Env) evalCall(e *Expr) CV {
 			rt, ok := specTypes[sf.Ret]
 			if !ok {
 				panic(cerr("unknown return type %s of ghost %s", sf.Ret, name))
+			}
+			if sf.Ret == "bytes" || sf.Ret == "string" {
+				// a ghost byte string: an uninterpreted content array and length (no backing object)
+				ln := tb.App("ghost:"+name+".len", BV64, ts...)
+				if !ln.hasBV {
+					env.r.addFact(tb.And(tb.SGe(ln, tb.BVI(64, 0)), tb.SLt(ln, tb.BVI(64, 1<<40))))
+				}
+				return CV{V: SliceV{Base: tb.BVI(64, 0), Off: tb.BVI(64, 0), Len: ln, Arr: tb.App("ghost:"+name+".arr", ByteAr, ts...)}, T: rt}
 			}
 			var s *Sort
 			if isBool(rt) {
